@@ -11,17 +11,26 @@
 //     access to a field of the same *Instance that the region writes, and the node-table lookup, must be
 //     held by a mutex field of the same receiver value (exclusive for writes / evaluation, ≥ shared for
 //     ToMessage and reads). Fields the three entry points only read carry no obligation (note).
+//
 //   - CONC-4  <Entry>:lock — a mutex of the pointer receiver is taken, released on every exit (return and
 //     explicit panic), no double Lock / stray Unlock, nothing that can panic between Lock and the
 //     registration of its deferred unlock (`defer mu.Unlock()`, `defer func(){…mu.Unlock()}()`, or
 //     explicit unlocks on every exit). Instance:same-mutex — all three lock one and the same field.
+//
 //   - CONC-4/who-may-call — every call site of the three evaluating calls in non-test, non-example
 //     library code is inside a held region or in a function into which every call-graph path (CHA, VTA in
 //     the thorough tier; literals' callers taken from their MakeClosure uses, dynamic edges only to
 //     address-taken functions) passes a held call site. Roots: no library caller, foreign caller, go
 //     statement, escaping function literal. Method values of evaluating calls are UNDECIDED.
+//
 //   - CONC-4/no-copy — pointer receivers only; no SSA value in library code whose type contains
 //     graph.Instance by value.
+//
+//   - FRESH-1  <T>.ApplyMessage (every implementation of graph.Parameter.ApplyMessage) — the value stored into
+//     a current-value field (the fields the type's Value() reads) is built from fresh storage or from the
+//     message, never from storage reachable from the receiver's state before the update (no decode on top
+//     of a copy of the current value, no decode into receiver-held storage, no append onto a receiver-held
+//     slice, no in-place element / map writes); keeping the message slice itself is recorded as an assumption.
 //
 // Evidence also lists (notes, coverage.other_instance_methods) what the other Instance methods touch
 // without the mutex and which HTTP handlers reach them; the property does not quantify over them.
